@@ -19,7 +19,8 @@ def observe(s, check, norm):
         rec['out'] = 'ok' if isinstance(n, str) else 'other'
         n = n if isinstance(n, str) else ''
     except Exception as e:
-        rec['out'] = type(e).__name__
+        # "refused with ValueError": a subclass of ValueError is a ValueError
+        rec['out'] = 'ValueError' if isinstance(e, ValueError) else type(e).__name__
         n = ''
     rec['n'] = lang.cps(n)
     rec['chkn'] = bool(check(n)) if rec['out'] == 'ok' else False
